@@ -113,11 +113,6 @@ func PointIndexOK(point string) bool { panic("ghost") }
 //@ modifies fresh
 //@ end
 
-//@ extern github.com/buildbuildio/pebbles/common IsRootObjectName
-//@ ensures result == (s == "Query" || s == "Mutation" || s == "Subscription")
-//@ modifies fresh
-//@ end
-
 // dedupable: "identical lookups of the same entity with the same sub-query and no other
 // variables" (C12) - a follow-up (non-root) step whose only variable is the entity id.
 //@ define dedupable(req *ExecutionRequest, variables map[string]interface{}) bool = !(req.QueryPlanStep.ParentType == "Query" || req.QueryPlanStep.ParentType == "Mutation" || req.QueryPlanStep.ParentType == "Subscription") && len(variables) == 1 && has(variables, "id")
